@@ -15,6 +15,7 @@ import fw
 
 sys.path.insert(0, os.path.join(fw.VERIF, "translators"))
 import emit_bindings  # noqa
+import emit_xsd  # noqa
 import nml_extract  # noqa
 
 SPECIAL = ["<", ">", "&", '"', "'", "\n", "]]>", "<![CDATA[", " ", "  ", "&amp;", "&#10;", "é", "µ", "\\", "%s", "{", "/>", "</a>"]
@@ -24,6 +25,12 @@ PLAIN = list("abcXYZ019_-.:")
 class IR:
     def __init__(self, repo=None):
         self.table, self.N, self.gaps = emit_bindings.regenerate(repo or fw.REPO, fw.LEAN)
+        try:
+            self.X, xg = emit_xsd.regenerate(repo or fw.REPO, fw.LEAN, self.table, self.N)
+            self.gaps = list(self.gaps) + xg
+        except Exception as e:   # the schema could not be read at all
+            self.X = None
+            self.gaps = list(self.gaps) + ["xsd translator crashed: %r" % (e,)]
         self.C = {c["name"]: c for c in self.table["classes"]}
         self.names = self.N.names
         self.ix = self.N.ix
